@@ -36,40 +36,86 @@ Proof. apply trun_and. Qed.
 Lemma accepts_not a s : accepts (TNot a) s = negb (accepts a s).
 Proof. apply trun_not. Qed.
 
-Theorem check_level_sound CL atoms fuel tbl Gt cls :
-  check_level CL atoms fuel tbl Gt cls = true ->
-  forall s, all_bytes s = true -> accepts Gt s = true -> classify tbl s = expected tbl cls.
+Lemma accepts_all l s : accepts (t_all l) s = forallb (fun t => accepts t s) l.
 Proof.
-  unfold check_level, classify, expected. intros H s Hs HG. f_equal.
-  induction tbl as [|l tbl IH]; [reflexivity|].
-  cbn in H. apply andb_prop in H as [Hl H]. cbn [filter].
-  rewrite (IH H). clear IH H.
-  destruct (in_class cls l).
-  - pose proof (decide_empty_sound _ _ _ _ Hl s Hs) as E.
-    rewrite accepts_and, accepts_not, HG in E. cbn in E.
-    apply Bool.negb_false_iff in E. unfold level_matches. rewrite E. reflexivity.
-  - pose proof (decide_empty_sound _ _ _ _ Hl s Hs) as E.
-    rewrite accepts_and, HG in E. cbn in E. unfold level_matches. rewrite E. reflexivity.
+  induction l as [|x l IH].
+  - cbn [t_all forallb]. unfold t_true. rewrite accepts_not. unfold accepts. rewrite d_Emp_dead. reflexivity.
+  - destruct l as [|y l'].
+    + cbn [t_all forallb]. rewrite andb_true_r. reflexivity.
+    + change (t_all (x :: y :: l')) with (TAnd x (t_all (y :: l'))).
+      rewrite accepts_and, IH. reflexivity.
 Qed.
 
-Theorem check_detect_sound CL atoms fuel combined Gt :
-  check_detect CL atoms fuel combined Gt = true ->
-  forall s, all_bytes s = true -> accepts Gt s = true -> search_b combined s = true.
+Theorem fact_check_sound CL atoms fuel f : fact_check CL atoms fuel f = true -> fact_holds f.
 Proof.
-  unfold check_detect, search_b. intros H s Hs HG.
-  pose proof (decide_empty_sound _ _ _ _ H s Hs) as E.
-  rewrite accepts_and, accepts_not, HG in E. cbn in E. apply Bool.negb_false_iff in E. exact E.
+  destruct f as [Gm l pos|Gm r]; cbn [fact_check fact_holds].
+  - destruct pos; intros H s Hs HG; unfold level_matches, level_top; rewrite accepts_all.
+    + rewrite forallb_forall in H. apply forallb_forall. intros c Hc.
+      pose proof (decide_empty_sound _ _ _ _ (H c Hc) s Hs) as E.
+      rewrite accepts_and, accepts_not, HG in E. cbn in E. apply Bool.negb_false_iff in E. exact E.
+    + apply Bool.orb_true_iff in H as [H|H].
+      * apply existsb_exists in H as [c [Hc Hd]].
+        pose proof (decide_empty_sound _ _ _ _ Hd s Hs) as E.
+        rewrite accepts_and, HG in E. cbn in E.
+        destruct (forallb (fun t => accepts t s) (level_conjs l)) eqn:F; [|reflexivity].
+        rewrite forallb_forall in F. rewrite (F c Hc) in E. discriminate.
+      * pose proof (decide_empty_sound _ _ _ _ H s Hs) as E.
+        rewrite accepts_and, HG in E. cbn in E. unfold level_top in E. rewrite accepts_all in E. exact E.
+  - intros H s Hs HG. unfold search_b.
+    pose proof (decide_empty_sound _ _ _ _ H s Hs) as E.
+    rewrite accepts_and, accepts_not, HG in E. cbn in E. apply Bool.negb_false_iff in E. exact E.
 Qed.
 
-Theorem check_ob_sound CL atoms fuel o : check_ob CL atoms fuel o = true -> ob_holds o.
+(* equality tests reflect equality *)
+Lemma beq_eq a : forall b, beq a b = true -> a = b.
 Proof.
-  unfold check_ob, ob_holds. intros H s Hs. apply andb_prop in H as [H1 H2]. split.
-  - apply (check_level_sound _ _ _ _ _ _ H1 s Hs).
-  - apply (check_detect_sound _ _ _ _ _ H2 s Hs).
+  induction a as [|x a IH]; intros [|y b] H; cbn in H; try discriminate; [reflexivity|].
+  apply andb_prop in H as [H1 H2]. apply N.eqb_eq in H1. subst. f_equal. auto.
+Qed.
+Lemma lbeq_eq a : forall b, lbeq a b = true -> a = b.
+Proof.
+  induction a as [|x a IH]; intros [|y b] H; cbn in H; try discriminate; [reflexivity|].
+  apply andb_prop in H as [H1 H2]. apply beq_eq in H1. subst. f_equal. auto.
+Qed.
+Lemma level_eqb_eq a b : level_eqb a b = true -> a = b.
+Proof.
+  destruct a as [n1 p1 c1], b as [n2 p2 c2]. unfold level_eqb; cbn. intros H.
+  apply andb_prop in H as [H H3]. apply andb_prop in H as [H1 H2].
+  apply String.eqb_eq in H1. apply re_eqb_eq in H2. apply lbeq_eq in H3. subst. reflexivity.
+Qed.
+Lemma fact_eqb_eq a b : fact_eqb a b = true -> a = b.
+Proof.
+  destruct a as [g1 l1 p1|g1 r1], b as [g2 l2 p2|g2 r2]; cbn; intros H; try discriminate.
+  - apply andb_prop in H as [H H3]. apply andb_prop in H as [H1 H2].
+    apply top_eqb_eq in H1. apply level_eqb_eq in H2. apply Bool.eqb_prop in H3. subst. reflexivity.
+  - apply andb_prop in H as [H1 H2]. apply top_eqb_eq in H1. apply re_eqb_eq in H2. subst. reflexivity.
 Qed.
 
-Theorem check_obs_sound CL atoms fuel obs :
-  forallb (check_ob CL atoms fuel) obs = true -> forall o, In o obs -> ob_holds o.
+Lemma classify_from_facts tbl Gm cls :
+  (forall l, In l tbl -> fact_holds (FLevel Gm l (in_class cls l))) ->
+  forall s, all_bytes s = true -> accepts Gm s = true -> classify tbl s = expected tbl cls.
 Proof.
-  intros H o Ho. rewrite forallb_forall in H. apply (check_ob_sound CL atoms fuel). apply H. exact Ho.
+  unfold classify, expected. intros H s Hs HG. f_equal.
+  induction tbl as [|l tbl IH]; [reflexivity|]. cbn [filter].
+  rewrite IH by (intros l' Hl'; apply H; right; exact Hl').
+  pose proof (H l (or_introl eq_refl) s Hs HG) as E. cbn in E. rewrite E. reflexivity.
+Qed.
+
+(* all decided facts hold; an obligation all of whose facts are decided holds *)
+Theorem obligations_sound CL atoms fuel decided obs :
+  forallb (fact_check CL atoms fuel) decided = true ->
+  forallb (ob_covered decided) obs = true ->
+  forall o, In o obs -> ob_holds o.
+Proof.
+  intros Hdec Hcov o Ho. rewrite forallb_forall in Hdec, Hcov. specialize (Hcov o Ho).
+  unfold ob_covered in Hcov. rewrite forallb_forall in Hcov.
+  assert (Hf : forall f, In f (ob_facts o) -> fact_holds f).
+  { intros f Hin. specialize (Hcov f Hin). apply existsb_exists in Hcov as [g [Hg He]].
+    apply fact_eqb_eq in He. subst g. apply (fact_check_sound CL atoms fuel). apply Hdec. exact Hg. }
+  unfold ob_holds. intros s Hs. split.
+  - apply classify_from_facts; [|exact Hs]. intros l Hl. apply Hf. unfold ob_facts.
+    apply in_or_app. left. apply in_map_iff. exists l. split; [reflexivity|exact Hl].
+  - assert (Hd : fact_holds (FDetect (o_D o) (o_combined o))).
+    { apply Hf. unfold ob_facts. apply in_or_app. right. left. reflexivity. }
+    exact (Hd s Hs).
 Qed.
